@@ -1,4 +1,6 @@
 import CMacVerif.Lemmas.SubgridLayout
+import CMacVerif.Lemmas.SplitInvariance
+import Mathlib.Algebra.Order.Field.Rat
 import Mathlib.Tactic.NormNum
 import Mathlib.Tactic.FieldSimp
 import Mathlib.Tactic.NormNum.OfScientific
@@ -425,17 +427,6 @@ example : let L : Layout := ⟨2, 2, 1, 3, 3, 3, true, false, false⟩
 section split
 variable {P σ δ M O : Type} [AddCommMonoid M]
 
-/-- The chained traversal (`Model/Handover.lean`, `chainStep`: `interact` cell steps, and at an exit
-`get_neighbour` / `output_to_input_direction` / re-entry) as a deposit-producing step function.  `val s dep`
-is the contribution of a deposit made in subgrid `s` to the totals `M` — e.g. the function on global cells
-that is `path·weight·σ` at the global cell of the deposit and zero elsewhere. -/
-def splitStep (L : Layout) (localStep : Nat → σ → LocalStep σ δ) (enter : Nat → Nat → σ → σ) (val : Nat → δ → M) :
-    ChainState σ → Option (M × ChainState σ) := fun x =>
-  (chainStep L localStep enter x).map fun r =>
-    ((match r.1 with
-      | some (s, dep) => val s dep
-      | none => 0), r.2)
-
 /-- the same grid as a single block -/
 def wholeLayout (L : Layout) : Layout := ⟨1, 1, 1, L.nx * L.mx, L.ny * L.my, L.nz * L.mz, L.px, L.py, L.pz⟩
 
@@ -463,7 +454,9 @@ def SplitInvariantOn (mm : MarchModel P σ δ M O) (L : Layout) : Prop :=
     mm.outcome L (runSum (mm.step L) f (mm.start L pk)).2
       = mm.outcome (wholeLayout L) (runSum (mm.step (wholeLayout L)) f (mm.start (wholeLayout L) pk)).2
 
-/-- **split_invariance — FULL STATEMENT, not proved here.**  For the ray-march model of C02 (exact
+/-- **split_invariance — abstract statement** (for any march model; proved for C02's model in section 7,
+`split_invariance`, in the corrected form "whenever both runs are over": the undivided run can need MORE
+steps than the split run, so "over within the same `f`" as written in `SplitInvariantOn` is too strong).  For the ray-march model of C02 (exact
 arithmetic) and every layout with at least one cell per subgrid, chained subgrid marches give the same
 per-cell totals, absorption/escape decision and final position as the march over the undivided grid.
 (Totals, not deposit lists: after re-entering exactly on a cell wall while moving in the negative direction
@@ -539,5 +532,138 @@ example : ∃ (mm : MarchModel Nat Nat Nat Nat Nat) (L : Layout) (R : ChainState
     exact (hfun a).symm.trans ha
   · intro a b m a' hR ha; subst hR
     exact Or.inl ⟨a', (hfun a).symm.trans ha, rfl⟩
+
+
+/-! ## 7. split invariance for C02's ray march (full theorem) -/
+
+section full
+set_option linter.unusedSectionVars false
+open CMacVerif.RayMarch CMacVerif.Split
+variable {K : Type} [Field K] [LinearOrder K] [IsStrictOrderedRing K]
+
+/-- the `MarchModel` of section 6 filled in with C02's model of `DensitySubGrid::interact`
+(`Model/RayMarch.lean`): one loop pass `step` in the block of subgrid `s`, re-entry `initSt`, deposits = the
+path length at the global cell, start = `get_subgrid(position)` + `initSt … INSIDE` -/
+def rayModel (g : Geom K) (field : Int × Int × Int → Cell K) :
+    MarchModel (Photon K) (Photon K × St K) (Visit K) (Int × Int × Int → K) Unit where
+  localStep := localStep g field
+  enter := enterStep g
+  val := valOf
+  start := fun L pk => startOf g L pk
+  outcome := fun _ _ => ()
+
+theorem rayModel_step (g : Geom K) (field : Int × Int × Int → Cell K) (L : Layout) :
+    (rayModel g field).step L = aStep g field L := rfl
+
+theorem wholeLayout_eq (L : Layout) : wholeLayout L = whole L := rfl
+
+/-- the cell step of the chained run in subgrid `s` IS C02's `step` on the block `create_subgrid` builds
+(cell size `h`, anchor = box anchor + offset of the subgrid), which in exact arithmetic is C02's `mkBlock`
+of that anchor with side `m·h` -/
+theorem blockOf_is_mkBlock (g : Geom K) (L : Layout) (s : Nat) (hm : ∀ a, 0 < (mV L).get a) (a : Ax) :
+    (blockOf g L s).cs.get a
+        = (mkBlock (blockOf g L s).anchor (V3.of fun a => ((mV L).get a : K) * g.h.get a) (mV L)).cs.get a
+    ∧ (blockOf g L s).inv.get a
+        = (mkBlock (blockOf g L s).anchor (V3.of fun a => ((mV L).get a : K) * g.h.get a) (mV L)).inv.get a := by
+  have hmK : ((mV L).get a : K) ≠ 0 := by exact_mod_cast (hm a).ne'
+  simp only [blockOf, mkBlock, V3.get_of, ofNat_eq]
+  constructor
+  · field_simp
+  · by_cases hh : g.h.get a = 0
+    · simp [hh]
+    · field_simp
+
+/-- **split_invariance (full theorem).**  Exact arithmetic over any linearly ordered field.  For every
+layout `L` (any number of subgrids and cells per subgrid, any periodicity), any cell contents with
+non-negative opacity, every packet that starts inside the box with a non-zero direction (`Ok`: C02's
+standing assumptions incl. the `DBL_MAX` sentinel condition; `StartInside`): whenever the chained run
+through the subgrids of `L` — C02's loop pass `step` and entry code `initSt` in every subgrid, C03's
+hand-over through `get_neighbour` / `output_to_input_direction` — and the run through the same grid as ONE
+block are both over, they have deposited the same total path length in every cell of the grid and ended
+the same way (both absorbed or both escaped, same remaining optical depth, same point — up to whole box
+lengths on periodic axes).  This includes the zero-length extra deposits the split run makes after an index
+was recomputed on a cell wall (`Split.step_stutter`); the single-step commutation hypothesis of
+`split_invariance_partial` is discharged by `Split.step_commutes`. -/
+theorem split_invariance (g : Geom K) (L : Layout) (field : Int × Int × Int → Cell K) (pk : Photon K)
+    (hok : Ok g L field pk) (hn : ∀ a, 0 < (nV L).get a) (hs : StartInside g L pk) (f f' : Nat)
+    (hA : Halts ((rayModel g field).step L) f ((rayModel g field).start L pk))
+    (hB : Halts ((rayModel g field).step (wholeLayout L)) f' ((rayModel g field).start (wholeLayout L) pk)) :
+    (runSum ((rayModel g field).step L) f ((rayModel g field).start L pk)).1
+        = (runSum ((rayModel g field).step (wholeLayout L)) f' ((rayModel g field).start (wholeLayout L) pk)).1
+    ∧ FinalAgree (envOf g L field pk) (runSum ((rayModel g field).step L) f ((rayModel g field).start L pk)).2
+        (runSum ((rayModel g field).step (wholeLayout L)) f' ((rayModel g field).start (wholeLayout L) pk)).2 :=
+  Split.split_invariance hok hn hs f f' hA hB
+
+/-- **split_invariance with termination transfer.**  Same assumptions.  If the chained run through the
+subgrids of `L` is over within `f` steps, then the run through the same grid as one block is over as well —
+after some `f'` steps, in general a different number: the undivided run can need more steps, e.g. one
+zero-length pass after its own periodic wrap where the split run pinned the coordinate — and both have the
+same per-cell totals and the same end.  (Uses that the chained run makes at most two zero-length passes in
+a row: `Split.rank`, `Split.step_stutter`.) -/
+theorem split_invariance_halts (g : Geom K) (L : Layout) (field : Int × Int × Int → Cell K) (pk : Photon K)
+    (hok : Ok g L field pk) (hn : ∀ a, 0 < (nV L).get a) (hs : StartInside g L pk) (f : Nat)
+    (hA : Halts ((rayModel g field).step L) f ((rayModel g field).start L pk)) :
+    ∃ f', Halts ((rayModel g field).step (wholeLayout L)) f' ((rayModel g field).start (wholeLayout L) pk)
+      ∧ (runSum ((rayModel g field).step L) f ((rayModel g field).start L pk)).1
+          = (runSum ((rayModel g field).step (wholeLayout L)) f' ((rayModel g field).start (wholeLayout L) pk)).1
+      ∧ FinalAgree (envOf g L field pk) (runSum ((rayModel g field).step L) f ((rayModel g field).start L pk)).2
+          (runSum ((rayModel g field).step (wholeLayout L)) f' ((rayModel g field).start (wholeLayout L) pk)).2 :=
+  Split.split_invariance_halts hok hn hs f hA
+
+/-- the commutation hypothesis of `split_invariance_partial`, discharged for C02's march against the
+reference run on the unfolded lattice (one-sided: every pass of the chained run is a pass of the reference
+run with the same deposit, or deposits nothing) -/
+theorem step_commutes_rayModel (g : Geom K) (L : Layout) (field : Int × Int × Int → Cell K) (pk : Photon K)
+    (hok : Ok g L field pk) :
+    StepCommutes ((rayModel g field).step L) (cstep (envOf g L field pk)) (Split.R g (envOf g L field pk) L) :=
+  Split.step_commutes hok
+
+/-- every estimator a visit adds to a cell is a fixed multiple of its path length (C02, `visit`), so equal
+path totals per cell give equal mean-intensity and heating totals per cell -/
+theorem estimators_are_path_multiples (ph : Photon K) (i : V3 Int) (ac : Int) (dist : K) :
+    (visit ph i ac dist).jH = dist * ph.sigH * ph.w ∧ (visit ph i ac dist).jHe = dist * ph.sigHe * ph.w
+      ∧ (visit ph i ac dist).jX = dist * ph.sigX * ph.w
+      ∧ (visit ph i ac dist).hH = dist * ph.sigH * ph.w * (ph.nu - 3.288e15)
+      ∧ (visit ph i ac dist).hHe = dist * ph.sigHe * ph.w * (ph.nu - 5.948e15) := ⟨rfl, rfl, rfl, rfl, rfl⟩
+
+end full
+
+/-! non-vacuity of `split_invariance`: two one-cell subgrids against one two-cell block over ℚ; the
+hypotheses hold, both runs are over after 3 resp. 2 steps, escaped, with path 1/2 and 1 in the two cells -/
+section example_full
+open CMacVerif.RayMarch CMacVerif.Split
+
+def exL : Layout := ⟨2, 1, 1, 1, 1, 1, false, false, false⟩
+def exG : Geom ℚ := ⟨⟨0, 0, 0⟩, ⟨1, 1, 1⟩⟩
+def exF : Int × Int × Int → Cell ℚ := fun _ => ⟨1, 1, 0⟩
+def exPk : Photon ℚ :=
+  { pos := ⟨1 / 2, 1 / 2, 1 / 2⟩, dir := ⟨1, 0, 0⟩, tau := 10, sigH := 1, sigHe := 0, sigX := 0, w := 1, nu := 4 }
+
+example : Ok exG exL exF exPk ∧ StartInside exG exL exPk := by
+  refine ⟨⟨?_, ?_, ⟨.x, by decide +kernel⟩, ?_, ?_, by decide +kernel⟩, ⟨?_, ?_, ?_⟩⟩
+  · intro a; cases a <;> decide +kernel
+  · intro a; cases a <;> decide +kernel
+  · intro a ha
+    cases a
+    · show (1 : ℚ) < dblMax * |(1 : ℚ)|
+      unfold dblMax; norm_num
+    · exact absurd rfl ha
+    · exact absurd rfl ha
+  · intro k; unfold kappa exF; norm_num [exPk]
+  · intro a; cases a <;> decide +kernel
+  · intro a; cases a <;> decide +kernel
+  · intro a; cases a <;> decide +kernel
+
+set_option maxRecDepth 100000 in
+example :
+    (aStep exG exF exL (runSum (aStep exG exF exL) 3 (startOf exG exL exPk)).2).isNone = true
+    ∧ (aStep exG exF (whole exL) (runSum (aStep exG exF (whole exL)) 2 (startOf exG (whole exL) exPk)).2).isNone = true
+    ∧ (runSum (aStep exG exF exL) 3 (startOf exG exL exPk)).1 (0, 0, 0) = 1 / 2
+    ∧ (runSum (aStep exG exF exL) 3 (startOf exG exL exPk)).1 (1, 0, 0) = 1
+    ∧ (runSum (aStep exG exF (whole exL)) 2 (startOf exG (whole exL) exPk)).1 (0, 0, 0) = 1 / 2
+    ∧ (runSum (aStep exG exF (whole exL)) 2 (startOf exG (whole exL) exPk)).1 (1, 0, 0) = 1 := by
+  decide +kernel
+
+end example_full
 
 end CMacVerif.C03
